@@ -47,7 +47,7 @@ def stageB(m):
     d = wdir(); apply(d, m)
     try:
         try:
-            r = subprocess.run(['go', 'test', '-count=1', '-failfast', '-timeout', '8m', '.'], cwd=d, env=ENV, capture_output=True, text=True, timeout=600)
+            r = subprocess.run(['go', 'test', '-count=1', '-failfast', '-timeout', '150s', '.'], cwd=d, env=ENV, capture_output=True, text=True, timeout=240)
         except subprocess.TimeoutExpired:
             return dict(m, tests='killed(timeout)')
         if r.returncode == 0:
@@ -67,13 +67,14 @@ def main():
         muts = [json.loads(l) for l in subprocess.run(['/tmp/mutgen', '/repo'], capture_output=True, text=True, check=True).stdout.splitlines()]
         fn, out = stageA, f'{OUT}/stageA.jsonl'
     else:
-        muts = [json.loads(l) for l in open(f'{OUT}/stageA.jsonl') if json.loads(l)['result'] == 'silent']
+        want = 'silent' if stage == 'B' else 'reported'   # stage C: do the tests notice the mutants the checker reports?
+        muts = [json.loads(l) for l in open(f'{OUT}/stageA.jsonl') if json.loads(l)['result'] == want]
         done = set()
-        if os.path.exists(f'{OUT}/stageB.jsonl'):
-            done = {json.loads(l)['id'] for l in open(f'{OUT}/stageB.jsonl')}
+        if os.path.exists(f'{OUT}/stage{stage}.jsonl'):
+            done = {json.loads(l)['id'] for l in open(f'{OUT}/stage{stage}.jsonl')}
         muts = [m for m in muts if m['id'] not in done]
-        fn, out = stageB, f'{OUT}/stageB.jsonl'
-    with mp.Pool(workers) as pool, open(out, 'a' if stage == 'B' else 'w') as f:
+        fn, out = stageB, f'{OUT}/stage{stage}.jsonl'
+    with mp.Pool(workers) as pool, open(out, 'a' if stage != 'A' else 'w') as f:
         for i, r in enumerate(pool.imap_unordered(fn, muts)):
             f.write(json.dumps(r) + '\n'); f.flush()
             if i % 50 == 0:
